@@ -1,7 +1,8 @@
 CONSTANTS
   Fields = {1, 2, 3, 4, 5, 6, 7, 8}
   Sizes = {0, 36, 73, 4096}
-  MaxOps = 6
+  MaxOps = 5
+  MaxSets = 3
   Defects = {}
 SPECIFICATION Spec
 INVARIANTS NoError RoundTrip TablesEqual SizeBound SensitiveKept EmitCase
